@@ -37,11 +37,17 @@ Inductive probe :=
 
 Inductive via := VHandle | VUpdate | VNewRoute.     (* Router.Handle / Router.Update / Router.NewRoute + HandleRoute *)
 
+Inductive entry := ERouter | ETxnRead | ETxnWrite.
+
 Inductive op :=
 | OCreate (v : via) (key : nat) (handler : bool) (opts : list ropt)   (* handler: is the HandlerFunc non-nil *)
 | OProbe (key : nat) (p : probe)
 | OAnnotGet (key : nat) (k : nat)          (* Route.Annotation(hashable key k) of the registered route *)
-| OAccess (key : nat).                     (* accessors of the registered route *)
+| OAccess (key : nat)                      (* accessors of the registered route *)
+| OLookup (e : entry) (key : nat) (adj : bool) (mw : bool).
+    (* secondary entry point: Router.Lookup / Txn.Lookup (read-only or write transaction) with a GET request for
+       the route's path (adj = false) or that path with the trailing slash toggled (adj = true), then the returned
+       route is run on the returned context: route.Handle(cc) (mw = false) or route.HandleMiddleware(cc) *)
 
 Record snapshot := mkSnap {
   sn_pattern : bytes; sn_hostname : bytes; sn_path : bytes; sn_params : nat;
@@ -61,6 +67,10 @@ Inductive obs :=
        CloneWith copy from the middleware (None when no recording handler ran) *)
 | ObsAnnot (v : option nat)
 | ObsSnap (s : option snapshot)                   (* None: nothing registered under the key *)
+| ObsLookup (tsr : bool) (own clone clonewith : view) (down : option view)
+    (* Lookup returned a route with this tsr flag; what the returned context, its Clone and its CloneWith copy show,
+       and what the route handler saw when run on the returned context *)
+| ObsLookupNone                                   (* Lookup returned no route *)
 | ObsPanic.
 
 Inductive result := RNewErr (e : err) | RRun (info : bool * bool * bool * bool * bool) (os : list obs) | RPanic.
@@ -103,6 +113,9 @@ Definition obs_eqb (a b : obs) : bool :=
       kind_eqb k k' && view_eqb a a' && view_eqb b b' && view_eqb c c' && opt_eqb view_eqb d d'
   | ObsAnnot v, ObsAnnot v' => opt_eqb Nat.eqb v v'
   | ObsSnap s, ObsSnap s' => opt_eqb snap_eqb s s'
+  | ObsLookup t a b c d, ObsLookup t' a' b' c' d' =>
+      Bool.eqb t t' && view_eqb a a' && view_eqb b b' && view_eqb c c' && opt_eqb view_eqb d d'
+  | ObsLookupNone, ObsLookupNone => true
   | ObsPanic, ObsPanic => true
   | _, _ => false
   end.
